@@ -602,12 +602,14 @@ def mainLoop (O : Oracles α) (dir : Dir D α) (P : Prob α) (pr : Params α) (s
 
 /-- The initial `while (curr->L < L_max && qub_violated(*curr))` loop.
     Returns (iterate, tick, number of backtracks, fuel exhausted). -/
-def initQub (O : Oracles α) (P : Prob α) (pr : Params α) :
+def initQub (O : Oracles α) (P : Prob α) (pr : Params α) (stop : Nat → Bool) :
     Nat → Iterate α → Nat → Nat → Iterate α × Nat × Nat × Bool
   | 0, c, t, b => (c, t, b, true)
   | f + 1, c, t, b =>
+    -- `while (!stop_signal.stop_requested() && curr->L < L_max && qub_violated(*curr))`
+    if stop t then (c, t, b, false) else
     if decide (c.L < pr.Lmax) && qubViolated pr c then
-      initQub O P pr f (evalStep O P { c with gamma := c.gamma / 2, L := c.L * 2 }) (t + P.fwdTicks) (b + 1)
+      initQub O P pr stop f (evalStep O P { c with gamma := c.gamma / 2, L := c.L * 2 }) (t + P.fwdTicks) (b + 1)
     else (c, t, b, false)
 
 def blankIterate (gV : Vec α) (gS : α) : Iterate α :=
@@ -633,13 +635,13 @@ def initIterates (O : Oracles α) (P : Prob α) (pr : Params α) (u0 : Vec α) (
 /-- Everything before the main loop. `Sum.inl ticks` = early `NotFinite` return.
     `gV`/`gS` = content of never-written storage, `gQ` = never-written `q`, `eps0` = `Stats::ε`'s
     default (`inf`). -/
-def initState (O : Oracles α) (P : Prob α) (d0 : D) (pr : Params α) (u0 : Vec α) (gV gQ : Vec α)
-    (gS eps0 : α) : Nat ⊕ St α D :=
+def initState (O : Oracles α) (P : Prob α) (d0 : D) (pr : Params α) (stop : Nat → Bool) (u0 : Vec α)
+    (gV gQ : Vec α) (gS eps0 : α) : Nat ⊕ St α D :=
   let cnt := initIterates O P pr u0 gV gS
   if !RealLike.isFinite cnt.1.L then .inl cnt.2.2
   else
   let curr := { cnt.1 with gamma := pr.LgammaFactor / cnt.1.L }
-  let r := initQub O P pr pr.lsFuel (evalStep O P curr) (cnt.2.2 + P.fwdTicks) 0
+  let r := initQub O P pr stop pr.lsFuel (evalStep O P curr) (cnt.2.2 + P.fwdTicks) 0
   .inr { curr := r.1, next := cnt.2.1, q := gQ, d := d0, tick := r.2.1,
          stats := { stats0 eps0 with stepsizeBacktracks := r.2.2.1 }, k := 0, noProgress := 0,
          doGnStep := decide (pr.gnInterval > 0) && !pr.disableAccel, nJ := -1, rcond := 1,
@@ -648,7 +650,7 @@ def initState (O : Oracles α) (P : Prob α) (d0 : D) (pr : Params α) (u0 : Vec
 /-- `PANOCOCPSolver::operator()`. -/
 def run (O : Oracles α) (dir : Dir D α) (P : Prob α) (d0 : D) (pr : Params α) (stop : Nat → Bool)
     (oot : Bool) (u0 y mu errz0 : Vec α) (gV gQ : Vec α) (gS eps0 : α) : Result α D :=
-  match initState O P d0 pr u0 gV gQ gS eps0 with
+  match initState O P d0 pr stop u0 gV gQ gS eps0 with
   | .inl ticks =>
     { stats := { stats0 eps0 with status := .NotFinite }, dfinal := d0, u := u0, y := y,
       errz := errz0, wrote := false, callbacks := [], ticks := ticks, final := none, lastHead := none }
